@@ -3,3 +3,5 @@
 package sim
 
 func (m *MonC13) snapshot(w *World) {}
+
+func (m *MonC13) heldThroughout(w *World, name, query string) bool { return false }
